@@ -94,14 +94,14 @@ SecOf(i) == [no |-> i, decoy |-> (i % 2 = 1), pfx |-> PfxSeq[((i \div 2) % 7) + 
              ord |-> OrdSeq[((i \div 56) % 2) + 1]]
 SecNos(h) == {(h * 37 + Seed * 11 + t * 29) % 112 : t \in 0 .. (SecPer - 1)}
 
-Cores(g) ==
-  UNION {UNION {UNION {
-     {[R |-> R, k |-> k, dk |-> dk, loc |-> loc] : loc \in Placements(g.E, R, NElems(k, dk))}
-     : dk \in {dk \in DKinds : NElems(k, dk) >= 1}} : k \in 0 .. MaxChain}
-     : R \in (IF RMode = "main" THEN {1} ELSE 1 .. g.nf)}
-Metas(g) ==
-  UNION {{[fam |-> "gen", nf |-> g.nf, E |-> Asc2(g.E), scheme |-> g.scheme, R |-> c.R, k |-> c.k, dk |-> c.dk, loc |-> c.loc,
-           sec |-> SecOf(i)] : i \in SecNos(CoreHash(g, c.R, c.k, c.dk, c.loc))} : c \in Cores(g)}
+Subs(g) ==          \* sub-groups [g, R, k, dk], only there to spread the work over TLC's workers
+  UNION {UNION {{[k |-> "sub", g |-> g, R |-> R, ck |-> k, dk |-> dk] : dk \in {dk \in DKinds : NElems(k, dk) >= 1}}
+                : k \in 0 .. MaxChain} : R \in (IF RMode = "main" THEN {1} ELSE 1 .. g.nf)}
+Metas(s) ==
+  LET g == s.g IN
+  UNION {{[fam |-> "gen", nf |-> g.nf, E |-> Asc2(g.E), scheme |-> g.scheme, R |-> s.R, k |-> s.ck, dk |-> s.dk, loc |-> loc,
+           sec |-> SecOf(i)] : i \in SecNos(CoreHash(g, s.R, s.ck, s.dk, loc))}
+         : loc \in Placements(g.E, s.R, NElems(s.ck, s.dk))}
 
 -----------------------------------------------------------------------------
 \* ---- building the program of a meta record
@@ -306,12 +306,21 @@ DistinctOrds(S) == {o \in S : \A o2 \in S : o2.ord = o.ord => o2.name = o.name}
 -----------------------------------------------------------------------------
 \* ---- layer A evaluated once per program (kept in the case record; identical for every permutation because node keys
 \*      and the declarative semantics do not mention positions)
-ExpOf(p) ==
-  [types |-> UNION {{[key |-> n.key, al |-> AllowedType(p, f, n.t)] : n \in FileTypeNodes(p, f)} : f \in 1 .. NFiles(p)},
-   ids |-> UNION {{[key |-> n.key, nt |-> Cardinality(ValTargets(p, f, n.segs)), al |-> AllowedExtra(p, f, n.segs)]
-                   : n \in FileIdNodes(p, f)} : f \in 1 .. NFiles(p)},
-   exts |-> UNION {{[key |-> n.key, al |-> AllowedExt(p, f, n.t)] : n \in FileExtNodes(p, f)} : f \in 1 .. NFiles(p)},
-   used |-> [f \in 1 .. NFiles(p) |-> [must |-> UsedMust(p, f), may |-> UsedMay(p, f)]]]
+IncsOfRefs(al) == {r.idx + 1 : r \in al}          \* NoRef has idx -1: position 0 = the file itself
+ExpTypes(p) == [f \in 1 .. NFiles(p) |-> {[key |-> n.key, al |-> AllowedType(p, f, n.t)] : n \in FileTypeNodes(p, f)}]
+ExpIdNode(key, T, al) == [key |-> key, nt |-> Cardinality(T), al |-> al]
+ExpIdNodeT(p, f, n, T) == ExpIdNode(n.key, T, AllowedExtraT(p, f, n.segs, T))
+ExpIds(p) == [f \in 1 .. NFiles(p) |-> {ExpIdNodeT(p, f, n, ValTargets(p, f, n.segs)) : n \in FileIdNodes(p, f)}]
+ExpExts(p) == [f \in 1 .. NFiles(p) |-> {[key |-> n.key, al |-> AllowedExt(p, f, n.t)] : n \in FileExtNodes(p, f)}]
+IncSets(types, ids, exts) == {IncsOfRefs({r.ref : r \in n.al}) : n \in types} \cup {IncsOfRefs(n.al) : n \in exts}
+                             \cup {IncsOfRefs(n.al) : n \in ids}
+UsedOf(p, f, N) == [must |-> {j \in DOMAIN Incs(p, f) : {j} \in N}, may |-> {j \in DOMAIN Incs(p, f) : \E t \in N : j \in t}]
+ExpOf3(p, types, ids, exts) ==
+  [types |-> UNION {types[f] : f \in 1 .. NFiles(p)},
+   ids |-> UNION {ids[f] : f \in 1 .. NFiles(p)},
+   exts |-> UNION {exts[f] : f \in 1 .. NFiles(p)},
+   used |-> [f \in 1 .. NFiles(p) |-> UsedOf(p, f, IncSets(types[f], ids[f], exts[f]))]]
+ExpOf(p) == ExpOf3(p, ExpTypes(p), ExpIds(p), ExpExts(p))
 StatusOf(p, exp) ==
   IF DupNames(p) THEN "dup"
   ELSE IF (\E n \in exp.types : n.al = {}) \/ (\E n \in exp.ids : n.nt = 0) \/ (\E n \in exp.exts : n.al = {}) THEN "undefined"
@@ -332,10 +341,11 @@ VARIABLES c, S
 vars == <<c, S>>
 NullS == [mk |-> {}, n2c |-> <<>>, ty |-> <<>>, ex |-> <<>>, sref |-> <<>>, used |-> {}, stack |-> <<>>, err |-> "", n |-> 0]
 NullRes == [err |-> "-", ty |-> <<>>, ex |-> <<>>, sref |-> <<>>, used |-> {}]
-MkCase(m) == LET p == Build(m)
-                 exp == ExpOf(p) IN
-             [k |-> "case", meta |-> m, perm |-> "id", ord |-> IdOrd(p), prog |-> p, exp |-> exp, st |-> StatusOf(p, exp),
-              baseres |-> NullRes]
+\* A case is made in two steps (built, then analysed) so that the program is a plain value of the state when layer A
+\* is evaluated over it (TLC does not cache LET / argument values inside an action).
+Built(m) == [k |-> "built", meta |-> m, prog |-> Build(m)]
+Analysed(b) == [k |-> "case", meta |-> b.meta, perm |-> "id", ord |-> IdOrd(b.prog), prog |-> b.prog, exp |-> ExpOf(b.prog),
+                baseres |-> NullRes]
 
 Init == c = [k |-> "root"] /\ S = NullS
 FanGroups ==
@@ -343,10 +353,12 @@ FanGroups ==
   /\ \/ c' \in Groups
      \/ WithNeg /\ c' = [k |-> "hand"]
   /\ S' = NullS
+FanSubs == c.k = "grp" /\ c' \in Subs(c) /\ S' = NullS
 FanCases ==
-  /\ \/ c.k = "grp" /\ \E m \in Metas(c) : c' = MkCase(m)
-     \/ c.k = "hand" /\ \E nm \in HandNames : c' = MkCase([fam |-> "hand", name |-> nm])
-  /\ S' = InitB(c'.prog)
+  /\ \/ c.k = "sub" /\ \E m \in Metas(c) : c' = Built(m)
+     \/ c.k = "hand" /\ \E nm \in HandNames : c' = Built([fam |-> "hand", name |-> nm])
+  /\ S' = NullS
+Analyse == c.k = "built" /\ c' = Analysed(c) /\ S' = InitB(c.prog)
 Finished == c.k = "case" /\ Done(S)
 FanPerms ==        \* from the finished run of the identity order, which every permuted run is compared with
   /\ Finished /\ c.perm = "id"
@@ -363,19 +375,20 @@ BStructFields == Running /\ PC(S) = "structs" /\ S' = Step(c.prog, S) /\ UNCHANG
 BServices == Running /\ PC(S) = "services" /\ S' = Step(c.prog, S) /\ UNCHANGED c
 BTypedefRound == Running /\ PC(S) = "round" /\ S' = Step(c.prog, S) /\ UNCHANGED c
 BReturn == Running /\ PC(S) = "return" /\ S' = Step(c.prog, S) /\ UNCHANGED c
-Next == FanGroups \/ FanCases \/ FanPerms \/ BIncludes \/ BRegisterNames \/ BTypedefTypes \/ BConstants
+Next == FanGroups \/ FanSubs \/ FanCases \/ Analyse \/ FanPerms \/ BIncludes \/ BRegisterNames \/ BTypedefTypes \/ BConstants
         \/ BStructFields \/ BServices \/ BTypedefRound \/ BReturn
 
 -----------------------------------------------------------------------------
 \* ---- design-level invariants
-TypeOK == c.k \in {"root", "grp", "hand", "case"}
+TypeOK == c.k \in {"root", "grp", "sub", "hand", "built", "case"}
+St == StatusOf(c.prog, c.exp)
 
 \* B => A.  B accepts only programs in which every name denotes something and accepts every program in which every name
 \* denotes exactly one thing; on accepted programs every stored record is one A allows -- except for the candidate class.
 BRefinesA ==
   Finished =>
-    /\ (S.err = "" => c.st \in {"unique", "ambiguous"})
-    /\ (c.st = "unique" => S.err = "")
+    /\ (S.err = "" => St \in {"unique", "ambiguous"})
+    /\ (St = "unique" => S.err = "")
     /\ (S.err = "" => \A key \in BadOf(c.prog, c.exp, S) : EnumSelCandidate(c.prog, S, key))
 
 \* the final resolution state does not depend on the order of the definitions
@@ -404,7 +417,7 @@ BOut(p, exp, S0) ==
 Emit ==
   Finished =>
     IF c.perm = "id"
-    THEN PrintT("CASE " \o ToJson([meta |-> c.meta, perm |-> "id", prog |-> CProg(c.prog), status |-> c.st,
+    THEN PrintT("CASE " \o ToJson([meta |-> c.meta, perm |-> "id", prog |-> CProg(c.prog), status |-> St,
                                    exp |-> c.exp, b |-> BOut(c.prog, c.exp, S)]))
     ELSE PrintT("CASE " \o ToJson([meta |-> c.meta, perm |-> c.perm, ord |-> c.ord, berr |-> S.err, steps |-> S.n]))
 =============================================================================
